@@ -8,6 +8,7 @@ scheduling decision before every atomic step (hook H3, sync rate 1)."""
 import random
 import simdrv
 from .base import Check, key_str
+from .c06 import parse_tsan
 
 CASES = ["sort_i32", "sort_u32", "sort_i64", "sort_u64", "sort_i16", "sort_u8", "sort_size_t", "sort_cmp", "sort_cmp_desc",
          "sort_double", "sort_vec_int", "for_each", "transform", "copy", "fill", "sequence", "reduce", "transform_reduce",
@@ -26,7 +27,7 @@ def lengths(rng, thr):
 class C13(Check):
     prop = "C13"
     level = "exploration"
-    flavours = ["par", "par-asan"]
+    flavours = ["par", "par-asan", "par-tsan"]
     assumptions = [
         "sequentially consistent interleavings only: the simulator does not model weaker hardware memory orders",
         "simtbb's schedules are a subset of the schedules the TBB contract allows",
@@ -56,7 +57,7 @@ class C13(Check):
                     args = {"case": case, "n": n, "dseed": rng.randrange(1 << 30), "dist": rng.randrange(6), "thr": thr,
                             "W": rng.choice([1, 2, 3, 4, 8, 16]), "stay": rng.choice([0, 30, 60, 85]), "own": rng.choice([30, 70, 95]),
                             "seed": rng.randrange(1, 1 << 30)}
-                    fl = "par-asan" if rng.random() < 0.15 else "par"
+                    fl = "par-asan" if rng.random() < 0.15 else ("par-tsan" if rng.random() < 0.06 and n <= 30000 else "par")
                     jobs.append({"flavour": fl, "kind": "c13", "args": args, "timeout": 300})
             for _ in range(150 if quick else 400):
                 args = {"threads": rng.choice([2, 2, 3]), "elems": rng.randint(3, 10), "ops": rng.randint(2, 5),
@@ -112,6 +113,13 @@ class C13(Check):
                             stats["ht_full_runs"] += 1
                     if sim["switches"] > 0:
                         nontrivial.add(h)
+                if j["flavour"] == "par-tsan":
+                    stats["tsan_runs"] = stats.get("tsan_runs", 0) + 1
+                    races, _o = parse_tsan(r.get("stderr", ""))
+                    for site in set(races):
+                        self.add_finding({"clause": "data_race", "case": j["args"].get("case", j["kind"]), "sites": site},
+                                         "ThreadSanitizer data race inside a parallel primitive at %s (%s)" % (site, simdrv.fmt_args(j["args"])),
+                                         {"property": "C13", "kind": j["kind"], "flavour": j["flavour"], "args": j["args"]})
                 key, desc = self.key_of(j, r)
                 if key:
                     self.add_finding(key, desc, {"property": "C13", "kind": j["kind"], "flavour": j["flavour"], "args": j["args"]})
@@ -152,6 +160,7 @@ class C13(Check):
         return key, desc
 
     def reproduce(self, replay, fresh=False):
+        fresh = fresh or replay["flavour"] == "par-tsan"
         r = self.run_job({"flavour": replay["flavour"], "kind": replay["kind"], "args": replay["args"], "timeout": 300}, fresh)
         exp = replay.get("expect")
         if not r["ok"]:
@@ -160,6 +169,10 @@ class C13(Check):
             if cls in ("asan", "ubsan"):
                 key["site"] = simdrv.asan_site(r.get("stderr", ""))
             return key, "crash"
+        if replay["flavour"] == "par-tsan":
+            races, _o = parse_tsan(r.get("stderr", ""))
+            if races:
+                return {"clause": "data_race", "case": replay["args"].get("case", replay["kind"]), "sites": sorted(set(races))[0]}, r["res"]["sim"]["hash"]
         key, _ = self.key_of({"kind": replay["kind"], "args": replay["args"]}, r)
         return key, r["res"]["sim"]["hash"]
 
